@@ -1,5 +1,5 @@
 (* Proofs about the model of prune_tree / get_subtree (Algo/Helper.v) against Spec/PC14.v. *)
-From BT Require Import Base.Prelude Base.Str Base.Rose Algo.Helper Spec.PC14.
+From BT Require Import Base.Prelude Base.Str Base.Rose Base.StrSep Algo.Helper Spec.PC14.
 
 (* ============================================================================================
    1. Generic list facts
@@ -1428,4 +1428,366 @@ Proof.
   cbn [filter_tree_b tkids]. split.
   - generalize 0. induction ks as [|k ks IH]; intros i; cbn; [reflexivity|]. rewrite IH. reflexivity.
   - intros i. rewrite nth_error_mapi_from. reflexivity.
+Qed.
+
+(* ============================================================================================
+   14. Separators of any positive length
+
+   The only place where the length of the tree separator matters is the stripping of trailing
+   separators from the path: the code strips the character *set* (rstrip), the property strips
+   whole occurrences (strip_trailing).  `strip_ok tsep s` says that the two agree on the path s.
+   It holds for every path when tsep is one character, and for every separator when the path is
+   well formed: it ends — before any number of whole trailing separators — in a non-empty
+   component that contains no character of the separator (e.g. the name of a node of a tree whose
+   names are `sgood`), or consists of whole separators only.
+   ============================================================================================ *)
+
+Definition strip_ok (tsep s : str) : Prop := strip_trailing s tsep = rstrip s tsep.
+Definition paths_ok (tsep sep : str) (paths : list str) : Prop :=
+  Forall (fun s => strip_ok tsep (replace s sep tsep)) paths.
+
+Lemma strip_ok_single c s : strip_ok [c] s.
+Proof. apply strip_trailing_single. Qed.
+
+Lemma paths_ok_single c sep paths : paths_ok [c] sep paths.
+Proof. apply Forall_forall. intros s _. apply strip_ok_single. Qed.
+
+Lemma repeat_str_S (s : str) n : repeat_str s (S n) = s ++ repeat_str s n.
+Proof. reflexivity. Qed.
+
+Lemma repeat_str_comm (s : str) n : repeat_str s n ++ s = s ++ repeat_str s n.
+Proof.
+  induction n as [|n IH]; [cbn; rewrite app_nil_r; reflexivity|].
+  rewrite repeat_str_S, <- app_assoc, IH. reflexivity.
+Qed.
+
+Lemma rev_repeat_str (s : str) n : rev (repeat_str s n) = repeat_str (rev s) n.
+Proof.
+  induction n as [|n IH]; [reflexivity|].
+  rewrite !repeat_str_S, rev_app_distr, IH. apply repeat_str_comm.
+Qed.
+
+Lemma In_repeat_str (s : str) n ch : In ch (repeat_str s n) -> In ch s.
+Proof.
+  induction n as [|n IH]; [contradiction|]. rewrite repeat_str_S, in_app_iff. intros [H|H]; auto.
+Qed.
+
+Lemma length_repeat_str (s : str) n : s <> [] -> n <= length (repeat_str s n).
+Proof.
+  intros Hs. induction n as [|n IH]; [lia|]. rewrite repeat_str_S, app_length.
+  destruct s; [contradiction|]. cbn [length]. lia.
+Qed.
+
+(* removing whole leading occurrences of R from R^k ++ B, when B does not start with R *)
+Lemma drop_leading_rep (R B : str) :
+  R <> [] -> startswith B R = false ->
+  forall k fuel, k <= fuel -> drop_leading fuel (repeat_str R k ++ B) R = B.
+Proof.
+  intros HR HB. induction k as [|k IH]; intros fuel Hle.
+  - cbn [repeat_str repeat concat app]. destruct fuel as [|f]; [reflexivity|].
+    cbn [drop_leading]. destruct R; [contradiction|]. cbn [is_nil]. rewrite HB. reflexivity.
+  - destruct fuel as [|f]; [lia|]. rewrite repeat_str_S, <- app_assoc. cbn [drop_leading].
+    destruct (is_nil R) eqn:E; [destruct R; [contradiction|discriminate]|].
+    rewrite startswith_app, skipn_app_exact. apply IH. lia.
+Qed.
+
+Lemma startswith_first_differs (c : N) (t R : str) : R <> [] -> ~ In c R -> startswith (c :: t) R = false.
+Proof.
+  intros HR Hc. destruct R as [|a R]; [contradiction|]. cbn [startswith].
+  destruct (N.eqb a c) eqn:E; [|reflexivity]. apply N.eqb_eq in E. subst. exfalso. apply Hc. left. reflexivity.
+Qed.
+
+Lemma rstrip_all sp a p : (forall ch, In ch p -> In ch sp) -> rstrip (a ++ p) sp = rstrip a sp.
+Proof.
+  intros H. unfold rstrip. rewrite rev_app_distr, lstrip_all; [reflexivity|].
+  intros ch Hch. apply H. apply in_rev. exact Hch.
+Qed.
+
+Lemma strip_trailing_rep tsep a k :
+  tsep <> [] -> startswith (rev a) (rev tsep) = false ->
+  strip_trailing (a ++ repeat_str tsep k) tsep = a.
+Proof.
+  intros Ht Ha. unfold strip_trailing. rewrite rev_app_distr, rev_repeat_str.
+  rewrite drop_leading_rep; [apply rev_involutive| |exact Ha|].
+  - intros E. apply Ht. apply (f_equal (@rev _)) in E. rewrite rev_involutive in E. exact E.
+  - rewrite app_length. pose proof (length_repeat_str tsep k Ht). lia.
+Qed.
+
+(* a path that ends, before k whole separators, in a non-empty separator-free component *)
+Lemma strip_ok_component tsep pre x k :
+  tsep <> [] -> sgood tsep x -> strip_ok tsep (pre ++ x ++ repeat_str tsep k).
+Proof.
+  intros Ht Hx. unfold strip_ok. rewrite app_assoc.
+  rewrite rstrip_all by (intros ch; apply In_repeat_str). rewrite (rstrip_stop tsep pre x Hx).
+  apply strip_trailing_rep; [exact Ht|].
+  destruct Hx as [Hne Hf]. rewrite rev_app_distr.
+  destruct x as [|c x] using rev_ind; [contradiction|]. rewrite rev_app_distr. cbn [rev app].
+  apply startswith_first_differs.
+  - intros E. apply Ht. apply (f_equal (@rev _)) in E. rewrite rev_involutive in E. exact E.
+  - intros Hin. apply in_rev in Hin. apply (Hf c Hin). apply in_or_app. right. left. reflexivity.
+Qed.
+
+(* a path made of whole separators only (incl. the empty path) *)
+Lemma strip_ok_seps tsep k : tsep <> [] -> strip_ok tsep (repeat_str tsep k).
+Proof.
+  intros Ht. unfold strip_ok.
+  rewrite <- (app_nil_l (repeat_str tsep k)) at 2.
+  rewrite rstrip_all by (intros ch; apply In_repeat_str).
+  rewrite <- (app_nil_l (repeat_str tsep k)). apply strip_trailing_rep; [exact Ht|].
+  cbn [rev]. destruct (rev tsep) eqn:E; [|reflexivity].
+  exfalso. apply Ht. apply (f_equal (@rev _)) in E. rewrite rev_involutive in E. exact E.
+Qed.
+
+Lemma join_last sp (L : list str) : L <> [] -> exists pre, join sp L = pre ++ last L [].
+Proof.
+  induction L as [|x L IH]; intros H; [contradiction|]. destruct L as [|y L].
+  - exists []. reflexivity.
+  - destruct IH as [pre Hp]; [discriminate|]. exists (x ++ sp ++ pre).
+    rewrite join_cons, Hp, <- !app_assoc. reflexivity.
+Qed.
+
+(* the usual shape of a prune / subtree path: optional text in front (e.g. a leading separator),
+   components that are non-empty and free of separator characters — e.g. names of the nodes of a
+   tree all of whose names are `sgood tsep` — joined by the separator, and k trailing separators *)
+Theorem strip_ok_wellformed tsep lead L k :
+  tsep <> [] -> L <> [] -> Forall (sgood tsep) L ->
+  strip_ok tsep (lead ++ join tsep L ++ repeat_str tsep k).
+Proof.
+  intros Ht HL HF. destruct (join_last tsep L HL) as [pre Hp]. rewrite Hp, <- app_assoc, app_assoc.
+  apply strip_ok_component; [exact Ht|].
+  apply (proj1 (Forall_forall _ _) HF). destruct L as [|x L] using rev_ind; [contradiction|].
+  rewrite last_last. apply in_or_app. right. left. reflexivity.
+Qed.
+
+(* ---- the addressing lemmas and the theorems of sections 7-12, for any tree separator ---- *)
+
+Lemma find_paths_addressed_g tsep t s :
+  strip_ok tsep s -> find_paths_pos tsep (copy_tree t) s = addressed tsep t s.
+Proof.
+  intros Hs. unfold find_paths_pos, addressed. rewrite positions_pre_pos, positions_copy.
+  apply filter_ext_in'. intros p _. unfold node_path_name, spec_path_name.
+  rewrite names_along_copy, route_names, Hs, is_suffix_endswith. reflexivity.
+Qed.
+
+Definition hits_g (tsep sep : str) (t : tree) (paths : list str) : list (list pos) :=
+  map (fun s => addressed tsep t (replace s sep tsep)) paths.
+
+Lemma locate_missing_g tsep sep t paths :
+  paths_ok tsep sep paths -> existsb is_nil (hits_g tsep sep t paths) = true ->
+  exists e, locate tsep sep (copy_tree t) paths = Raise e.
+Proof.
+  induction paths as [|s paths IH]; intros Hok; cbn [hits_g map existsb locate]; [discriminate|].
+  inversion Hok as [|? ? Hs Hrest]; subst.
+  unfold find_path. rewrite (find_paths_addressed_g tsep t _ Hs).
+  destruct (addressed tsep t (replace s sep tsep)) as [|p [|p' l]]; cbn [is_nil orb]; intros H.
+  - exists NotFoundError. reflexivity.
+  - destruct (IH Hrest H) as [e He]. exists e. rewrite He. reflexivity.
+  - exists SearchError. reflexivity.
+Qed.
+
+Lemma locate_found_g tsep sep t paths :
+  paths_ok tsep sep paths -> singletons (hits_g tsep sep t paths) = true ->
+  locate tsep sep (copy_tree t) paths = Ret (concat (hits_g tsep sep t paths)).
+Proof.
+  induction paths as [|s paths IH]; intros Hok; cbn [hits_g map singletons forallb locate concat]; [reflexivity|].
+  inversion Hok as [|? ? Hs Hrest]; subst.
+  unfold find_path. rewrite (find_paths_addressed_g tsep t _ Hs).
+  destruct (addressed tsep t (replace s sep tsep)) as [|p [|p' l]]; cbn [andb]; intros H; try discriminate.
+  fold (hits_g tsep sep t paths). rewrite (IH Hrest H). reflexivity.
+Qed.
+
+Theorem prune_tree_satisfies_g tsep t pp exact sep d :
+  tsep <> [] -> sep <> [] -> paths_ok tsep sep (norm_paths pp) ->
+  prop_C14 tsep t (CPrune pp exact sep d) (obs_of (prune_tree tsep t pp exact sep d)) = true.
+Proof.
+  intros Ht Hsep Hok. unfold prop_C14, prune_tree.
+  destruct (is_nil (norm_paths pp) && Nat.eqb d 0) eqn:E0; [reflexivity|].
+  destruct tsep as [|c0 tsep0]; [contradiction|]. destruct sep as [|x sep]; [contradiction|]. cbn [is_nil orb].
+  change (map (fun s => addressed (c0 :: tsep0) t (replace s (x :: sep) (c0 :: tsep0))) (norm_paths pp))
+    with (hits_g (c0 :: tsep0) (x :: sep) t (norm_paths pp)).
+  destruct (existsb is_nil (hits_g (c0 :: tsep0) (x :: sep) t (norm_paths pp))) eqn:E1.
+  - destruct (norm_paths pp) as [|s paths] eqn:Ep; [discriminate|]. cbn [is_nil].
+    destruct (locate_missing_g _ _ t (s :: paths) Hok E1) as [e He]. rewrite He. reflexivity.
+  - destruct (singletons (hits_g (c0 :: tsep0) (x :: sep) t (norm_paths pp))) eqn:E2; [|reflexivity].
+    cbn [negb]. destruct (nested (concat (hits_g (c0 :: tsep0) (x :: sep) t (norm_paths pp)))) eqn:E3; [reflexivity|].
+    destruct (norm_paths pp) as [|s paths] eqn:Ep; cbn [is_nil negb].
+    + cbn [obs_of]. apply is_tree_refl. apply copy_cut_only_obs.
+    + rewrite (locate_found_g _ _ t (s :: paths) Hok E2). cbn [obs_of]. apply is_tree_refl.
+      apply copy_prune_then_cut_obs; [|exact E3]. apply singletons_nonempty; [exact E2|discriminate].
+Qed.
+
+Theorem get_subtree_satisfies_g tsep t s d :
+  tsep <> [] -> strip_ok tsep s ->
+  prop_C14 tsep t (CSubtree s d) (obs_of (get_subtree tsep t s d)) = true.
+Proof.
+  intros Ht Hs. unfold prop_C14, get_subtree. destruct tsep as [|c0 tsep0]; [contradiction|]. cbn [is_nil].
+  destruct (is_nil s) eqn:Es.
+  - rewrite subtree_tail_obs. apply is_tree_refl. symmetry. apply (expected_subtree_spec [] t t d). reflexivity.
+  - unfold find_path. rewrite (find_paths_addressed_g _ t s Hs).
+    destruct (addressed (c0 :: tsep0) t s) as [|q [|q' l]] eqn:Ea; [reflexivity| |reflexivity].
+    destruct (addressed_valid (c0 :: tsep0) t s q) as [x Hx]; [rewrite Ea; left; reflexivity|].
+    rewrite subtree_at_copy, Hx. cbn [option_map]. rewrite subtree_tail_obs. apply is_tree_refl.
+    symmetry. apply (expected_subtree_spec q t x d Hx).
+Qed.
+
+Definition call_ok_g (tsep : str) (call : hcall) : Prop :=
+  match call with
+  | CPrune pp _ sep _ => sep <> [] /\ paths_ok tsep sep (norm_paths pp)
+  | CSubtree s _ => strip_ok tsep s
+  end.
+
+Theorem model_satisfies_C14_g tsep t call :
+  tsep <> [] -> call_ok_g tsep call -> prop_C14 tsep t call (obs_of (run_call tsep t call)) = true.
+Proof.
+  intros Ht. destruct call as [pp exact sep d|s d]; cbn [call_ok_g run_call]; intros H.
+  - destruct H as [H1 H2]. apply prune_tree_satisfies_g; assumption.
+  - apply get_subtree_satisfies_g; assumption.
+Qed.
+
+Theorem prune_kept_spec_g tsep sep t paths exact d :
+  tsep <> [] -> sep <> [] -> paths <> [] -> paths_ok tsep sep paths ->
+  singletons (hits_g tsep sep t paths) = true -> nested (concat (hits_g tsep sep t paths)) = false ->
+  exists r, prune_tree tsep t (PList paths) exact sep d = Ret r /\
+            obs_tree r = expected_prune t true (concat (hits_g tsep sep t paths)) exact d.
+Proof.
+  intros Ht Hs Hp Hok H1 H2. unfold prune_tree. cbn [norm_paths].
+  destruct paths as [|s paths]; [contradiction|]. destruct tsep as [|c0 tsep0]; [contradiction|].
+  destruct sep as [|y sep]; [contradiction|].
+  cbn [is_nil andb orb]. rewrite (locate_found_g _ _ t (s :: paths) Hok H1).
+  eexists. split; [reflexivity|]. apply copy_prune_then_cut_obs; [|exact H2].
+  apply singletons_nonempty; [exact H1|discriminate].
+Qed.
+
+Theorem missing_path_error_g tsep sep t paths exact d s :
+  tsep <> [] -> sep <> [] -> paths_ok tsep sep paths -> In s paths ->
+  addressed tsep t (replace s sep tsep) = [] ->
+  exists e, prune_tree tsep t (PList paths) exact sep d = Raise e.
+Proof.
+  intros Ht Hs Hok Hin Ha. unfold prune_tree. cbn [norm_paths].
+  destruct paths as [|s0 paths]; [contradiction|]. destruct tsep as [|c0 tsep0]; [contradiction|].
+  destruct sep as [|y sep]; [contradiction|]. cbn [is_nil andb orb].
+  assert (E : existsb is_nil (hits_g (c0 :: tsep0) (y :: sep) t (s0 :: paths)) = true).
+  { apply existsb_exists. exists []. split; [|reflexivity]. unfold hits_g. rewrite <- Ha.
+    apply (in_map (fun s => addressed (c0 :: tsep0) t (replace s (y :: sep) (c0 :: tsep0)))). exact Hin. }
+  destruct (locate_missing_g _ _ t (s0 :: paths) Hok E) as [e He]. rewrite He. exists e. reflexivity.
+Qed.
+
+Theorem missing_subtree_error_g tsep t s d :
+  tsep <> [] -> s <> [] -> strip_ok tsep s -> addressed tsep t s = [] ->
+  get_subtree tsep t s d = Raise ValueError.
+Proof.
+  intros Ht Hs Hok Ha. unfold get_subtree. destruct tsep as [|c0 tsep0]; [contradiction|]. cbn [is_nil].
+  destruct s as [|x s]; [contradiction|]. cbn [is_nil].
+  unfold find_path. rewrite (find_paths_addressed_g _ t _ Hok), Ha. reflexivity.
+Qed.
+
+Theorem subtree_spec_g tsep t s d q :
+  tsep <> [] -> s <> [] -> strip_ok tsep s -> addressed tsep t s = [q] ->
+  exists r, get_subtree tsep t s d = Ret r /\ obs_tree r = expected_subtree t q d.
+Proof.
+  intros Ht Hs Hok Ha. unfold get_subtree. destruct tsep as [|c0 tsep0]; [contradiction|]. cbn [is_nil].
+  destruct s as [|x s]; [contradiction|]. cbn [is_nil].
+  unfold find_path. rewrite (find_paths_addressed_g _ t _ Hok), Ha.
+  destruct (addressed_valid (c0 :: tsep0) t (x :: s) q) as [y Hy]; [rewrite Ha; left; reflexivity|].
+  rewrite subtree_at_copy, Hy. cbn [option_map].
+  destruct (subtree_tail_ret y d) as [r [Hr Ho]]. exists r. split; [exact Hr|].
+  rewrite Ho. symmetry. apply (expected_subtree_spec q t y d Hy).
+Qed.
+
+(* ---- inner start node, any separator ---- *)
+
+Lemma find_paths_at_addressed_g tsep t st s0 s :
+  subtree_at t st = Some s0 -> strip_ok tsep s ->
+  find_paths_pos_at false tsep (copy_tree t) st s = addressed_at false tsep t st s.
+Proof.
+  intros H Hs. unfold find_paths_pos_at, addressed_at.
+  assert (Hc : subtree_at (copy_tree t) st = Some (copy_tree s0)) by (rewrite subtree_at_copy, H; reflexivity).
+  rewrite (search_space_pre_pos _ st _ Hc), pre_pos_copy.
+  rewrite (filter_map_comm (fun ps : pos * tree => prefixb st (fst ps)) cp), map_map. cbn [cp fst].
+  rewrite filter_map_comm, filter_filter. f_equal. apply filter_ext_in'. intros [p x] _. cbn [fst snd negb orb].
+  rewrite andb_true_r. f_equal. unfold node_path_name, spec_path_name.
+  rewrite names_along_copy, route_names, Hs, is_suffix_endswith. reflexivity.
+Qed.
+
+Definition hits_at_g (tsep sep : str) (t : tree) (st : pos) (paths : list str) : list (list pos) :=
+  map (fun s => addressed_at false tsep t st (replace s sep tsep)) paths.
+
+Lemma locate_at_missing_g tsep sep t st s0 paths :
+  subtree_at t st = Some s0 -> paths_ok tsep sep paths ->
+  existsb is_nil (hits_at_g tsep sep t st paths) = true ->
+  exists e, locate_at false tsep sep (copy_tree t) st paths = Raise e.
+Proof.
+  intros Hst. induction paths as [|s paths IH]; intros Hok; cbn [hits_at_g map existsb locate_at]; [discriminate|].
+  inversion Hok as [|? ? Hs Hrest]; subst.
+  unfold find_path_at. rewrite (find_paths_at_addressed_g tsep t st s0 _ Hst Hs).
+  destruct (addressed_at false tsep t st (replace s sep tsep)) as [|p [|p' l]]; cbn [is_nil orb]; intros H.
+  - exists NotFoundError. reflexivity.
+  - destruct (IH Hrest H) as [e He]. exists e. rewrite He. reflexivity.
+  - exists SearchError. reflexivity.
+Qed.
+
+Lemma locate_at_found_g tsep sep t st s0 paths :
+  subtree_at t st = Some s0 -> paths_ok tsep sep paths ->
+  singletons (hits_at_g tsep sep t st paths) = true ->
+  locate_at false tsep sep (copy_tree t) st paths = Ret (concat (hits_at_g tsep sep t st paths)).
+Proof.
+  intros Hst. induction paths as [|s paths IH]; intros Hok;
+    cbn [hits_at_g map singletons forallb locate_at concat]; [reflexivity|].
+  inversion Hok as [|? ? Hs Hrest]; subst.
+  unfold find_path_at. rewrite (find_paths_at_addressed_g tsep t st s0 _ Hst Hs).
+  destruct (addressed_at false tsep t st (replace s sep tsep)) as [|p [|p' l]]; cbn [andb]; intros H; try discriminate.
+  fold (hits_at_g tsep sep t st paths). rewrite (IH Hrest H). reflexivity.
+Qed.
+
+Lemma hits_at_g_below tsep sep t st paths q : In q (concat (hits_at_g tsep sep t st paths)) -> prefix st q.
+Proof.
+  intros H. apply in_concat in H as [l [Hl Hq]]. unfold hits_at_g in Hl. apply in_map_iff in Hl as [s [<- _]].
+  apply (addressed_at_below _ _ _ _ _ _ Hq).
+Qed.
+
+Theorem prune_tree_at_satisfies_g tsep t st s0 pp exact sep d :
+  subtree_at t st = Some s0 -> tsep <> [] -> sep <> [] -> paths_ok tsep sep (norm_paths pp) ->
+  prop_C14_at false tsep t st (CPrune pp exact sep d) (obs_of (prune_tree_at false tsep t st pp exact sep d)) = true.
+Proof.
+  intros Hst Ht Hsep Hok. unfold prop_C14_at, prune_tree_at.
+  destruct (is_nil (norm_paths pp) && Nat.eqb d 0) eqn:E0; [reflexivity|].
+  destruct tsep as [|c0 tsep0]; [contradiction|]. destruct sep as [|x sep]; [contradiction|]. cbn [is_nil orb].
+  rewrite subtree_at_copy, Hst. cbn [option_map].
+  change (map (fun s => addressed_at false (c0 :: tsep0) t st (replace s (x :: sep) (c0 :: tsep0))) (norm_paths pp))
+    with (hits_at_g (c0 :: tsep0) (x :: sep) t st (norm_paths pp)).
+  destruct (existsb is_nil (hits_at_g (c0 :: tsep0) (x :: sep) t st (norm_paths pp))) eqn:E1.
+  - destruct (norm_paths pp) as [|s paths] eqn:Ep; [discriminate|]. cbn [is_nil].
+    destruct (locate_at_missing_g _ _ t st s0 (s :: paths) Hst Hok E1) as [e He]. rewrite He. reflexivity.
+  - destruct (singletons (hits_at_g (c0 :: tsep0) (x :: sep) t st (norm_paths pp))) eqn:E2; [|reflexivity].
+    cbn [negb]. destruct (nested (concat (hits_at_g (c0 :: tsep0) (x :: sep) t st (norm_paths pp)))) eqn:E3; [reflexivity|].
+    destruct (norm_paths pp) as [|s paths] eqn:Ep; cbn [is_nil].
+    + cbn [obs_of]. apply is_tree_refl. apply (inner_cut_only_obs st t s0 d Hst).
+    + rewrite (locate_at_found_g _ _ t st s0 (s :: paths) Hst Hok E2). cbn [obs_of]. apply is_tree_refl.
+      apply (inner_prune_then_cut_obs _ exact st t s0 d Hst); [|exact E3|].
+      * apply singletons_nonempty; [exact E2|discriminate].
+      * intros q. apply hits_at_g_below.
+Qed.
+
+Theorem get_subtree_at_satisfies_g tsep t st s0 s d :
+  subtree_at t st = Some s0 -> tsep <> [] -> strip_ok tsep s ->
+  prop_C14_at false tsep t st (CSubtree s d) (obs_of (get_subtree_at false tsep t st s d)) = true.
+Proof.
+  intros Hst Ht Hs. unfold prop_C14_at, get_subtree_at. destruct tsep as [|c0 tsep0]; [contradiction|].
+  cbn [is_nil]. destruct (is_nil s) eqn:Es.
+  - rewrite subtree_at_copy, Hst. cbn [option_map]. rewrite subtree_tail_x_obs. apply is_tree_refl.
+    rewrite expected_gen_subtree. symmetry. apply (expected_subtree_spec st t s0 d Hst).
+  - unfold find_path_at. rewrite (find_paths_at_addressed_g _ t st s0 s Hst Hs).
+    destruct (addressed_at false (c0 :: tsep0) t st s) as [|q [|q' l]] eqn:Ea; [reflexivity| |reflexivity].
+    destruct (addressed_at_valid false (c0 :: tsep0) t st s q) as [x Hx]; [rewrite Ea; left; reflexivity|].
+    rewrite subtree_at_copy, Hx. cbn [option_map]. rewrite subtree_tail_x_obs. apply is_tree_refl.
+    rewrite expected_gen_subtree. symmetry. apply (expected_subtree_spec q t x d Hx).
+Qed.
+
+Theorem model_satisfies_C14_at_g tsep t st s0 call :
+  subtree_at t st = Some s0 -> tsep <> [] -> call_ok_g tsep call ->
+  prop_C14_at false tsep t st call (obs_of (run_call_at false tsep t st call)) = true.
+Proof.
+  intros Hst Ht. destruct call as [pp exact sep d|s d]; cbn [call_ok_g run_call_at]; intros H.
+  - destruct H as [H1 H2]. apply (prune_tree_at_satisfies_g tsep t st s0); assumption.
+  - apply (get_subtree_at_satisfies_g tsep t st s0); assumption.
 Qed.
